@@ -4,12 +4,13 @@ import (
 	"fmt"
 	"go/ast"
 	"go/constant"
-	"go/token"
+	"go/types"
 	"os"
 	"path/filepath"
 	"regexp"
 	"sort"
 	"strconv"
+	"strings"
 )
 
 // jsUnescape decodes the escapes used in soyutils.js string and regexp-class literals.
@@ -69,27 +70,14 @@ func ruleR04j(c *Ctx) {
 	if p == nil || fd == nil {
 		return
 	}
-	info := p.TypesInfo
+	_ = p.TypesInfo
 	goTab := map[rune]string{}
-	for _, cs := range sw.Body.List {
-		cc := cs.(*ast.CaseClause)
-		for _, e := range cc.List {
-			tv := info.Types[e]
-			if tv.Value == nil {
-				continue
-			}
-			v, _ := constant.Int64Val(tv.Value)
-			repl, found := "", false
-			for _, s := range cc.Body {
-				if as, ok := s.(*ast.AssignStmt); ok && len(as.Rhs) == 1 {
-					repl, found = constBytes(c, info, as.Rhs[0])
-				}
-			}
-			if !found {
-				repl = "?"
-			}
-			goTab[rune(v)] = repl
+	for ch, ent := range sw.entries {
+		repl := ent.repl
+		if !ent.found {
+			repl = "?"
 		}
+		goTab[ch] = repl
 	}
 	path := filepath.Join(c.Repo, "soyjs", "lib", "soyutils.js")
 	src, err := os.ReadFile(path)
@@ -175,102 +163,110 @@ func ruleR04p(c *Ctx) {
 	if jsOp == ">=" {
 		jsMin = jsK
 	}
-	// Go: the if statement one branch of which subtracts a constant from the limit variable
-	val := func(e ast.Expr) (int64, bool) {
-		if tv, ok := info.Types[e]; ok && tv.Value != nil && tv.Value.Kind() == constant.Int {
-			v, exact := constant.Int64Val(tv.Value)
-			return v, exact
-		}
-		return 0, false
+	// Go: the directive is evaluated (K2) for every limit L from 0 to a few past the threshold, with a value
+	// longer than any of them and the default ellipsis argument: the bound at which the text is cut and
+	// whether "..." is appended are read off each completing path, however the tests are arranged.
+	type outcome struct {
+		cut      int64
+		ellipsis bool
 	}
-	found := 0
-	ast.Inspect(fd.Body, func(x ast.Node) bool {
-		ifs, ok := x.(*ast.IfStmt)
-		if !ok {
-			return true
-		}
-		subIn := func(b ast.Stmt) (string, int64, bool) {
-			var name string
-			var d int64
-			okk := false
-			if b == nil {
-				return "", 0, false
+	var mismatch []string
+	decided, undecided := 0, 0
+	for L := int64(0); L <= jsK+4; L++ {
+		ev := newEvaluator(c, truncHypo{L: L, info: info})
+		ev.watchLit = "..."
+		ev.watchSlice = true
+		comps := ev.execBlock(fd.Body.List, state{env: env{}}, info)
+		seen := map[outcome]bool{}
+		for _, cp := range comps {
+			if cp.kind != cReturn {
+				continue
 			}
-			ast.Inspect(b, func(y ast.Node) bool {
-				if inner, isIf := y.(*ast.IfStmt); isIf && inner != ifs {
-					return false
+			o, cuts := outcome{}, 0
+			for _, e := range cp.st.tr.list() {
+				switch {
+				case strings.HasPrefix(e.name, "slice-high:"):
+					o.cut, _ = strconv.ParseInt(strings.TrimPrefix(e.name, "slice-high:"), 10, 64)
+					cuts++
+				case strings.HasPrefix(e.name, "lit:"):
+					o.ellipsis = true
 				}
-				if as, ok := y.(*ast.AssignStmt); ok && as.Tok == token.SUB_ASSIGN && len(as.Lhs) == 1 {
-					if v, ok := val(as.Rhs[0]); ok {
-						name, d, okk = exprKey(as.Lhs[0]), v, true
-					}
-				}
-				return true
-			})
-			return name, d, okk
-		}
-		thenVar, thenD, inThen := subIn(ifs.Body)
-		elseVar, elseD, inElse := subIn(ifs.Else)
-		if inThen == inElse {
-			return true
-		}
-		be, ok := ast.Unparen(ifs.Cond).(*ast.BinaryExpr)
-		if !ok {
-			return true
-		}
-		limit, d := thenVar, thenD
-		if inElse {
-			limit, d = elseVar, elseD
-		}
-		// normalise the condition to "limit OP K"
-		var op token.Token
-		var k int64
-		if exprKey(be.X) == limit {
-			if v, ok := val(be.Y); ok {
-				op, k = be.Op, v
-			} else {
-				return true
 			}
-		} else if exprKey(be.Y) == limit {
-			if v, ok := val(be.X); ok {
-				k = v
-				switch be.Op { // K OP limit  ==  limit OP' K
-				case token.LSS:
-					op = token.GTR
-				case token.LEQ:
-					op = token.GEQ
-				case token.GTR:
-					op = token.LSS
-				case token.GEQ:
-					op = token.LEQ
-				default:
-					return true
-				}
-			} else {
-				return true
+			if cuts == 1 {
+				seen[o] = true
 			}
-		} else {
-			return true
 		}
-		// smallest limit for which the subtraction happens
-		var goMin int64
+		want := outcome{cut: L}
+		if L >= jsMin {
+			want = outcome{cut: L - jsD, ellipsis: true}
+		}
 		switch {
-		case inThen && op == token.GTR:
-			goMin = k + 1
-		case inThen && op == token.GEQ:
-			goMin = k
-		case inElse && op == token.LSS: // shortened when !(limit < K)
-			goMin = k
-		case inElse && op == token.LEQ:
-			goMin = k + 1
+		case len(seen) == 0:
+			undecided++
+		case len(seen) == 1 && seen[want]:
+			decided++
 		default:
-			return true
+			decided++
+			for o := range seen {
+				if o != want {
+					mismatch = append(mismatch, fmt.Sprintf("limit %d: Go cuts at %d (ellipsis %v), JavaScript at %d (ellipsis %v)", L, o.cut, o.ellipsis, want.cut, want.ellipsis))
+				}
+			}
 		}
-		found++
-		c.check(goMin == jsMin && d == jsD, "R04p", "soyhtml.directiveTruncate ellipsis-room", ifs.Pos(),
-			fmt.Sprintf("both backends shorten the limit by %d from a limit of %d on", jsD, jsMin),
-			fmt.Sprintf("the Go directive shortens the limit by %d from a limit of %d on, the JavaScript runtime by %d from %d on: at the limits in between the two backends print different text", d, goMin, jsD, jsMin))
-		return true
-	})
-	c.floor("R04p", "ellipsis-room tests in directiveTruncate", 1, found)
+	}
+	sort.Strings(mismatch)
+	key := "soyhtml.directiveTruncate ellipsis-room"
+	switch {
+	case undecided > 0:
+		c.unk("R04p", key, fd.Pos(), fmt.Sprintf("for %d of %d limits no path of the directive cuts its text at a bound the evaluator could fold", undecided, jsK+5))
+	case len(mismatch) > 0:
+		c.bad("R04p", key, fd.Pos(), "the two backends make room for the ellipsis differently: "+strings.Join(mismatch, "; "))
+	default:
+		c.ok("R04p", key, fd.Pos(), fmt.Sprintf("for every limit 0..%d both backends cut at the same bound (shortened by %d from a limit of %d on) and append the ellipsis alike", jsK+4, jsD, jsMin))
+	}
+	c.floor("R04p", "limits evaluated through directiveTruncate", int(jsK+5), decided+undecided)
 }
+
+// truncHypo: the truncate directive called with an integer limit L, no second argument, and a value longer
+// than any limit tried, all of whose bytes start a character.
+type truncHypo struct {
+	L    int64
+	info *types.Info
+}
+
+func (h truncHypo) expr(ev *evaluator, e ast.Expr, info *types.Info) (aval, bool) {
+	call, ok := e.(*ast.CallExpr)
+	if !ok || len(call.Args) != 1 {
+		return unknown, false
+	}
+	if tv, ok := info.Types[call.Fun]; ok && tv.IsType() {
+		if b, ok := tv.Type.Underlying().(*types.Basic); ok && b.Info()&types.IsInteger != 0 {
+			if atv, ok := info.Types[call.Args[0]]; ok && atv.Value == nil {
+				return constVal(constant.MakeInt64(h.L)), true
+			}
+		}
+		return unknown, false
+	}
+	if id, ok := call.Fun.(*ast.Ident); ok {
+		if bi, ok := info.Uses[id].(*types.Builtin); ok && bi.Name() == "len" {
+			if atv, ok := info.Types[call.Args[0]]; ok && atv.Value == nil {
+				switch u := atv.Type.Underlying().(type) {
+				case *types.Basic:
+					if u.Info()&types.IsString != 0 {
+						return constVal(constant.MakeInt64(1000)), true
+					}
+				case *types.Slice:
+					return constVal(constant.MakeInt64(1)), true
+				}
+			}
+		}
+	}
+	return unknown, false
+}
+func (h truncHypo) prim(ev *evaluator, fn *types.Func, call *ast.CallExpr, st state) (aval, bool) {
+	if fn != nil && fn.Pkg() != nil && fn.Pkg().Path() == "unicode/utf8" && fn.Name() == "RuneStart" {
+		return boolVal(true), true
+	}
+	return unknown, false
+}
+func (h truncHypo) isRead(fn *types.Func) bool { return false }
